@@ -126,7 +126,11 @@ def dump_cases(draw):
             mcv = draw(st.sampled_from(MCVS))
             k = draw(st.sampled_from([0, 0, 2, 4, 8, 16]))
             pl = bytes([draw(st.integers(0, 255))] * k).hex()
-            if draw(st.integers(0, 9)) == 0:
+            r10 = draw(st.integers(0, 19))
+            if r10 == 1:
+                # a well-formed task type event whose label is longer than any line buffer
+                evs.append(T.type_create("V", base + c, 1 + i, "L" * draw(st.sampled_from([5, 1000, 1023, 1500, 5000]))))
+            elif r10 == 0:
                 evs.append(T.jumbo(mcv, base + c, bytes([i]) * draw(st.integers(0, 40))))
             else:
                 evs.append(T.ev(mcv, base + c, pl))
@@ -169,6 +173,18 @@ def run_dump(case, ctx):
             if not r.ok:
                 raise Violation("ovnidump failed on sorted streams: %s" % r.brief())
             rows = parse_dump(r.out)
+            # text mode: one line per event as well, whatever the tool can or cannot decode
+            r2 = tools.dump(b, d, ())
+            if not r2.ok:
+                raise Violation("ovnidump (text mode) failed on sorted streams: %s" % r2.brief())
+            trow = []
+            for l in r2.out.decode("latin-1").split("\n"):
+                f = l.split()
+                if len(f) >= 3 and f[0].isdigit():
+                    trow.append((int(f[0]), f[1], f[2]))
+            if trow != [(a_, b_, c_) for (a_, b_, c_, _h) in rows]:
+                raise Violation("ovnidump text mode lists %d events, hex mode %d (first difference at line %d)" % (
+                    len(trow), len(rows), next((i_ for i_, (x, y) in enumerate(zip(trow, [(a_, b_, c_) for (a_, b_, c_, _h) in rows])) if x != y), min(len(trow), len(rows)))))
             rt = tools.top(b, d)
             if not rt.ok:
                 raise Violation("ovnitop failed: %s" % rt.brief())
@@ -232,6 +248,8 @@ def emu_cases(draw):
     # "far": hosts whose own clocks are hours apart and only meet through the offset table
     far = draw(st.integers(0, 3)) == 0
     base = 10 ** 14 if far else 10 ** 6
+    if draw(st.integers(0, 3)) == 0:
+        base += 2 ** 53 + 1       # clocks of a host that has been up for months: beyond 53 bits
     HOUR = 3600 * 10 ** 9
     scale = draw(st.sampled_from([1, 1, 1, 2 ** 31 + 3, 5 * 10 ** 9]))   # seconds apart: differences beyond 32 bits
     samepid = draw(st.booleans())
